@@ -20,11 +20,11 @@ GROUPS = ["strong", "alt", "freebsd", "glibc", "netbsd", "openbsd", "osx", "owl"
 
 CHEAP = {
     "yescrypt": [b"$y$j5.$c2FsdHNhbHQ", b"$y$/3/$7Dx0/", b"$y$.5/$saltsalt"], "gost_yescrypt": [b"$gy$j5.$c2FsdHNhbHQ", b"$gy$.2/$12345/"],
-    "scrypt": [b"$7$3/..../....saltsalt", b"$7$2/....0....ab$cd$"],
+    "scrypt": [b"$7$3/..../....saltsalt", b"$7$2/....0....ab$cd$", b"$7$2/..../...." + b"Salt" * 75, b"$7$2/..../...." + b"x" * 325],
     "bcrypt": [b"$2b$04$abcdefghijklmnopqrstuu"], "bcrypt_y": [b"$2y$04$abcdefghijklmnopqrstuu"],
     "bcrypt_a": [b"$2a$04$abcdefghijklmnopqrstuu"], "bcrypt_x": [b"$2x$04$abcdefghijklmnopqrstuu"],
     "sha512crypt": [b"$6$saltsalt", b"$6$rounds=1000$s"], "sha256crypt": [b"$5$saltsalt", b"$5$rounds=1001$s$"],
-    "sha1crypt": [b"$sha1$20$saltsalt", b"$sha1$3$x$"], "sunmd5": [b"$md5,rounds=5$saltsalt$", b"$md5$salt$$"],
+    "sha1crypt": [b"$sha1$20$saltsalt", b"$sha1$3$x$"], "sunmd5": [b"$md5,rounds=5$saltsalt$", b"$md5$salt$$", b"$md5$" + b"S" * 340 + b"$"],
     "md5crypt": [b"$1$saltsalt", b"$1$$"], "nt": [b"$3$", b"$3$$junk"],
     "bsdicrypt": [b"_/...salt", b"_1...abcdtail"],
     "des": [b"ab", b"xy1234567890a", b"ab............", b"Zz" + b"q" * 30, b"a", b"a!"],
@@ -155,10 +155,25 @@ def run_corpus(exe, corp):
             lines.append(rt.gensalt_line("rn", pre, cnt, rb, 64, 192))
     lines.append("preferred")
     res, end = w.run(lines, 600)
-    w.stop()
     if end is not None:
+        w.stop()
         return None, end, lines
-    out = {"crypt": [], "gensalt": {}, "preferred": rt.unhx(res[-1].get("v", "-"))}
+    # round trip (C01) in this configuration: every hash produced is accepted as a setting and reproduces itself
+    rl, ridx = [rt.obj_line(0, align=5, fill="r", seed=7)], []
+    for i, (fam, p, s) in enumerate(corp):
+        h = rt.hash_of(res[2 + 5 * i])
+        if h is not None:
+            ridx.append((i, h))
+            rl.append(rt.crypt_line("crypt_rn", 0, p, h))
+    res2, end2 = w.run(rl, 600)
+    w.stop()
+    rehash = {}
+    if end2 is None:
+        for (i, h), r in zip(ridx, res2[1:]):
+            rehash[i] = (h, rt.hash_of(r), rt.errno_of(r))
+    elif isinstance(end2, pool.Death):
+        return None, end2, rl
+    out = {"crypt": [], "gensalt": {}, "preferred": rt.unhx(res[-1].get("v", "-")), "rehash": rehash}
     for i, (fam, p, s) in enumerate(corp):
         a, b, c = res[2 + 5 * i], res[3 + 5 * i], res[5 + 5 * i]
         out["crypt"].append((rt.hash_of(a), rt.errno_of(a), int(b["v"])))
@@ -197,6 +212,12 @@ def judge(acc, name, en, got, full, corp, ipd):
         if "inobj" in got and got["inobj"][i] != h and len(p) < 512 and len(s) < 384:
             viol("in-object-arguments-differ", "crypt_rn(%r, %r) gives %r with separate argument buffers and %r with the "
                                                "arguments kept in data->input / data->setting" % (p, s, h, got["inobj"][i]))
+        rh = got.get("rehash", {}).get(i)
+        if rh is not None:
+            acc.count("round_trips")
+            if rh[1] != rh[0]:
+                viol("round-trip", "crypt(%r, %r) = %r, but with that hash as the setting the result is %r (errno %d)" % (
+                    p, s, rh[0], rh[1], rh[2]))
         m = gen.classify(s, en)                 # which enabled method claims it (None: nobody)
         m_full = gen.classify(s)
         exp_v = gen.checksalt_expect(s, en)
@@ -318,6 +339,8 @@ def run(tier):
         "configurations_built": nbuilt,
         "configurations_requested": len(sels),
         "corpus_requests_per_configuration": len(corp),
+        "round_trips_checked_across_configurations": int(run_.acc.n.get("round_trips", 0)),
+        "argument_placements": ["separate exact-size buffers", "inside data->input / data->setting of a randomly filled object"],
         "samples": [{"selection": n, "methods": e} for n, e in sels[:3]],
     }
     return run_.finish(cov, assumptions=[
